@@ -360,11 +360,11 @@ func (e *Engine) havocShallow(st *State, args []Val) {
 				}
 				if et := derefType(v.Ty); et != nil {
 					n := 0
-					leafPaths(v.T, et, func(addr string, k Kind, _ types.Type) {
+					leafPaths(v.T, et, func(addr string, k Kind, lt types.Type) {
 						n++
 						addr2 := addr
 						_ = addr2
-						preds = append(preds, pred{heapOfKind(k), func(a string) string { return "(= " + a + " " + addr + ")" }})
+						preds = append(preds, pred{heapFor(k, lt), func(a string) string { return "(= " + a + " " + addr + ")" }})
 					})
 					if n > 0 && n <= 64 {
 						// slices inside the pointee: their elements too
@@ -390,7 +390,7 @@ func (e *Engine) havocShallow(st *State, args []Val) {
 			b := v.Base
 			switch k := kindOf(et); k {
 			case KInt, KBool, KAddr, KStr, KIface, KReal, KFunc:
-				preds = append(preds, pred{heapOfKind(k), func(a string) string {
+				preds = append(preds, pred{heapFor(k, et), func(a string) string {
 					return "(and (= (root " + a + ") (root " + b + ")) ((_ is pelem) (path " + a + ")) (= (peb (path " + a + ")) (path " + b + ")))"
 				}})
 			default:
@@ -643,6 +643,10 @@ func (e *Engine) applyContract(st *State, c *FuncContract, key string, sig *type
 			Pos: posStr(e, pos), Tags: r.Tags, Func: e.curFunc, Clause: r.Text, Bounded: st.boundedNow()})
 		st.assume(t)
 	}
+	// objects handed to the callee may come back in its results
+	for _, a := range args {
+		st.escape(a)
+	}
 	// snapshot for old()
 	env.old = map[string]string{}
 	for k, v := range st.heaps {
@@ -854,11 +858,21 @@ func (e *Engine) appendOp(st *State, s, xs Val, sliceT types.Type) Val {
 		addr := "(ref " + root + " pnil)"
 		st.private[root] = true
 		nl := st.define("alen", "Int", sAdd(s.Len, "(slen "+xs.T+")"))
-		h := st.heap("Hi")
+		h := st.heap("Hy")
 		q := e.fresh("qi")
 		st.assume("(forall ((" + q + " Int)) (! (=> (and (<= 0 " + q + ") (< " + q + " " + s.Len + ")) (= (select " + h + " (elem " + addr + " " + q + ")) (select " + h + " " + elemAt(s.Base, s.Off, q) + "))) :pattern ((select " + h + " (elem " + addr + " " + q + ")))))")
 		e.unsupported("append of string to byte slice")
 		return Val{K: KSlice, Base: addr, Off: "0", Len: nl, Cap: nl, Root: root, NonNil: true, Ty: sliceT}
+	}
+	// Frame: when the slice has spare capacity append writes IN PLACE into its backing array. The result is still
+	// modelled as a fresh object (aliasing of the result is not modelled), but the in-place write is a frame
+	// obligation of the function under contract, so code that appends into caller-visible memory is reported.
+	if ac := st.assignsEnv; ac != nil && ac.enabled && !ac.all && s.Root == "" && s.Base != "null" {
+		var cs []string
+		leafPaths(elemAt(s.Base, s.Off, s.Len), et, func(a string, k Kind, lt types.Type) {
+			cs = append(cs, e.allowedPred(ac, heapFor(k, lt), a))
+		})
+		st.addCheck(&Check{Name: fmt.Sprintf("%s.assigns@append", e.curFunc), Kind: "assigns", Goal: sImp(sAnd(sNot(sEq(s.Base, "null")), sLt(s.Len, s.Cap)), sAnd(cs...)), Func: e.curFunc, Clause: "append writes in place when the slice has spare capacity"})
 	}
 	root := st.newRoot()
 	addr := "(ref " + root + " pnil)"
@@ -876,8 +890,8 @@ func (e *Engine) appendOp(st *State, s, xs Val, sliceT types.Type) Val {
 			return
 		}
 		q := e.fresh("qi")
-		leafPaths(elemAt(addr, dstLo, q), et, func(da string, k Kind, _ types.Type) {
-			h := st.heap(heapOfKind(k))
+		leafPaths(elemAt(addr, dstLo, q), et, func(da string, k Kind, lt types.Type) {
+			h := st.heap(heapFor(k, lt))
 			sa := strings.Replace(da, elemAt(addr, dstLo, q), elemAt(src.Base, src.Off, q), 1)
 			st.assume("(forall ((" + q + " Int)) (! (=> (and (<= 0 " + q + ") (< " + q + " " + n + ")) (= (select " + h + " " + da + ") (select " + h + " " + sa + "))) :pattern ((select " + h + " " + da + "))))")
 		})
@@ -897,7 +911,7 @@ func (e *Engine) assumeStored(st *State, addr string, v Val, t types.Type) {
 		if k == KFunc {
 			term = e.funcID(v)
 		}
-		st.assume("(= (select " + st.heap(heapOfKind(k)) + " " + addr + ") " + term + ")")
+		st.assume("(= (select " + st.heap(heapFor(k, t)) + " " + addr + ") " + term + ")")
 	case KSlice:
 		st.assume("(= (select " + st.heap("Ha") + " (fld " + addr + " 0)) " + v.Base + ")")
 		st.assume("(= (select " + st.heap("Hi") + " (fld " + addr + " 1)) " + v.Off + ")")
@@ -928,7 +942,7 @@ func (e *Engine) copyOp(st *State, dst, src Val, call *ssa.CallCommon, pos token
 		e.unsupported("copy of non-scalar elements")
 		return Val{K: KInt, T: n}
 	}
-	hn := heapOfKind(k)
+	hn := heapFor(k, et)
 	old := st.heap(hn)
 	// frame obligation
 	e.checkAssignsRange(st, dst, pos)
